@@ -241,6 +241,21 @@ CHECKS = {
     note="Trusted: TLC, Go's regexp engine, the curated string tables (10 strings).",
     technique="TLA+ selector algebra + TLC truth-table enumeration; table replay at every selector site; TLC trace validation",
     ref="5.14"),
+ "C19": dict(
+    level="model_checking",
+    text="Alias.tla models caller-held objects as handles onto heap cells with copy-on-write containers (metadata copies share "
+         "the backing cell until one of them is written, as kv.KV and Finalizers do) and the store's own deep copies; TLC "
+         "checks the frame condition `a mutation through one handle changes nothing else` and, as a vacuity guard, that the "
+         "write-in-place variant of the model violates it. TLC-generated programs (create / get / list / update / modify "
+         "with the callback's object retained / metadata copies by Copy() and by struct assignment, interleaved with every "
+         "public mutator: labels Set/Delete/Do, annotations, finalizers Add/Remove/Set, phase, version, owner, spec) run on "
+         "the in-memory state, the gRPC stack and the runtime ResourceCache fed from a kind watch exactly as the runtime does; "
+         "after every step the store contents (read independently), a watch-fed replica and every held object are logged and "
+         "TLC judges that a mutation changed only the mutated handle (TraceAlias.tla).",
+    note="Trusted: TLC, the canonical rendering of resources in harness/c19. Watch-delivered event objects are never mutated "
+         "(no isolation promised for them).",
+    technique="TLA+ heap/copy-on-write model + TLC; program replay on three stacks; TLC trace validation",
+    ref="5.19"),
 }
 
 NOT_YET = "check not built yet in this round (planned, see DESIGN.md section 5)"
